@@ -150,12 +150,21 @@ def gen_cases(seed, tier):
         body = b"ab\nxbcx\n" + b + b"\nabc\nzz\n"
         cases.append(CliCase(f"clir{k}", fl.replace("h", ""), None, b"ab\nbc", body, [], True)); k += 1
         cases.append(CliCase(f"clir{k}", fl, None, b"ab\nbc", b"", [("in0.txt", body), ("in1.txt", b"bcd\n" + b)], False)); k += 1
+    # std's UTF-8 validation against the model's decoder (Model/Utf8.v) at every boundary of the encoding:
+    # first / last sequence of each width, overlong forms, surrogates, above U+10FFFF, stray and missing
+    # continuation bytes.  One run per sequence (the program stops at the first invalid line).
+    edges = ["7f", "80", "bf", "c080", "c1bf", "c280", "c2c0", "c27f", "dfbf", "df", "e08080", "e09fbf", "e0a080", "e0a07f", "e0a0",
+             "ed9fbf", "eda080", "edbfbf", "ee8080", "efbfbf", "efbf", "f0808080", "f08fbfbf", "f0908080", "f09080",
+             "f48fbfbf", "f4908080", "f5808080", "f8888080", "ff", "fe", "c2", "e3", "f0", "61c3a962", "c3a9c3", "e38182e3", "f09f9880f09f98"]
+    for h in edges:
+        cases.append(CliCase(f"clir{k}", "n", None, b"ab", b"ab\n" + bytes.fromhex(h) + b"\nab\n", [], True)); k += 1
     # a FILE name that is not UTF-8: opened all the same, its name is not printed
     for fl in ("", "n", "cn", "h"):
         cases.append(CliCase(f"clir{k}", fl, None, b"ab\nbc", b"", [("in\udcff.txt", b"ab\nzz\nxbc\n"), ("ok.txt", b"bc\n"), ("\udce3\udc81", b"ab\n\xff\nab\n")], False)); k += 1
     cases.append(CliCase(f"clir{k}", "", b"ab\n\xff\nbc\n", None, b"ab\n", [], True)); k += 1
     cases.append(CliCase(f"clir{k}", "n", b"ab\nbc\n", b"zz", b"\xc3\nab\n", [], True)); k += 1
-    while len(cases) < n:
+    n_raw = sum(1 for c in cases if c.id.startswith("clir"))      # outside the property: not counted
+    while len(cases) - n_raw < n:
         pats = list(dict.fromkeys(rng.choice(WORDS) for _ in range(rng.range(1, 5))))
         fl = rng.choice(all_flags)
         via_stdin = rng.chance(1, 2)
